@@ -5,3 +5,5 @@ import SmVerif.Model.DriverNg
 import SmVerif.Model.DriverLca
 import SmVerif.Model.DriverCmp
 import SmVerif.Model.DriverStore
+import SmVerif.Model.DriverTwin
+import SmVerif.Model.DriverSketch
